@@ -26,6 +26,8 @@ func checkC13(c *Ctx) {
 	c.include(checkC01, map[string]string{"C01.1": "C13.7", "C01.2": "C13.7", "C01.7": "C13.7"})
 	c.Rule("C13.8", "what the recording callback is handed is the wire message: the conversion stage of ListenTo is the identity on every decoder output shape (= C04.5) — a padded or re-encoded message would be stored, written and read back as different events", 17)
 	c.include(checkC04, map[string]string{"C04.5": "C13.8"})
+	c.Rule("C13.9", "the arrival time the recording callback computes deltas from is the decoder's time stamp of the completing chunk (= C04.4: decoder equals the receiver model in every state x input cell, time stamps included — also for messages under running status)", 20)
+	c.include(checkC04, map[string]string{"C04.4": "C13.9"})
 
 	trackT := p.namedType("smf", "Track")
 	mtT := p.namedType("smf", "MetricTicks")
